@@ -190,14 +190,32 @@ class RemoteProxy(BaseProxy):
         return self._meta
 
     async def send(self, request: Any) -> Any:
-        return await self._channel.send(request)
+        # If the remote side has hung up while no request was outstanding
+        # (e.g. its process died while it was waiting for its next step),
+        # nobody would ever answer this request: the channel's receiver
+        # has already seen the end of the stream, so our reader task is
+        # done (or finishes while we wait).
+        response = asyncio.ensure_future(self._channel.send(request))
+        try:
+            await asyncio.wait(
+                {response, self._reader_task}, return_when=asyncio.FIRST_COMPLETED
+            )
+            if response.done():
+                return response.result()
+        finally:
+            response.cancel()
+        raise ConnectionResetError("The simulator has closed its connection.")
 
     async def stop(self) -> None:
         try:
             await asyncio.wait_for(self._channel.send(["stop", [], {}]), 0.1)
-        except (asyncio.TimeoutError, asyncio.IncompleteReadError):
+        except (asyncio.TimeoutError, asyncio.IncompleteReadError, ConnectionError):
             pass
-        await self._channel.close()
+        try:
+            await self._channel.close()
+        except ConnectionError:
+            # The connection is broken already (the simulator has died).
+            pass
         # close() cancels the channel's receiver task. If that happens
         # before the receiver has seen the end of the stream, our reader
         # task is never told that no more requests will come and would
